@@ -10,6 +10,6 @@ echo "== mutant demo:"; (cd $W && PYTHONPATH=$W/src /venv/bin/python out/demo_$M
 echo "== mutant test suite:"; (cd $W && PYTHONPATH=$W/src /venv/bin/python -m pytest -q -p no:cacheprovider --timeout=900 --deselect tests/test_dependency_manager.py --deselect tests/test_dependency_rendering_e2e.py 2>&1 | tail -2)
 git -C $W checkout -q -- .
 D=/dev/shm/seedrun_$P$M; rm -rf $D; mkdir -p $D; cp -r /repo/src $D/src
-(cd $D && patch -p1 --no-backup-if-mismatch < $OUT/$M.diff >/dev/null) || { echo "diff does not apply to CURRENT /repo (fuzz?)"; }
+(cd $D && patch -p1 --no-backup-if-mismatch < $OUT/$M.diff >/dev/null) || { echo "== PATCH DOES NOT APPLY to the CURRENT /repo tree (code changed by later fix commits): check skipped"; rm -rf $D; exit 4; }
 echo "== our check ($TIER):"; cd /verif && VF_REPO=$D /venv/bin/python -m vf.run --prop $P --tier $TIER 2>&1 | grep -E "^VIOLATION|^FAIL|^C[0-9]+ $TIER|HARNESS" | cut -c1-260 | head -8
 rm -rf $D
